@@ -17,7 +17,7 @@ EXPLANATION = ("Histories of setter / call / read operations are executed on rea
 BOUNDS = {
     "quick": "Periodogram and pburg, real data N=3 (new data N=3 and N=4), symbolic sampling; operation alphabet of 17 "
              "(Periodogram) / 12 (pburg) operations; all histories of length <= 2 after construction (+ optional initial compute); inductive step for every operation from the 3 pre-states",
-    "thorough": "adds complex data, pcorrelogram, and all histories of length 3",
+    "thorough": "adds complex data and pcorrelogram (histories of length <= 2) and all histories of length 3 on real data for the three classes",
 }
 ASSUMPTIONS = ["floats modelled as exact reals", "fft = DFT definition with exact twiddles",
                "a re-assigned sampling value fs' differs from fs (the 'unchanged value' operations cover equality)",
@@ -210,7 +210,7 @@ def cases(tier, seed):
             for op in ops:
                 out.append(Case("inductive:%s:%s:%s" % (tag, pre, op), case_inductive,
                                 dict(cls=cls, cplx=cplx, pre=pre, op=op), timeout=60, max_paths=8, feas_timeout=3))
-        maxlen = 2 if q else 3
+        maxlen = 2 if (q or cplx) else 3        # length-3 histories: real data only (the setters do not look at the data type)
         for ln in range(1, maxlen + 1):
             for seq in itertools.product(ops, repeat=ln):
                 for first in ((True,) if ln == maxlen and ln > 1 else (False, True)):
